@@ -306,7 +306,7 @@ def eval_shard(ctx, k, items):
 
 def fragment(ctx):
     r = ctx.rng("fragment")
-    n = int(os.environ.get("VERIF_C01_N", 0)) or (96 if ctx.quick else 3000)      # override only for trying mutations quickly
+    n = int(os.environ.get("VERIF_C01_N", 0)) or (96 if ctx.quick else 1200)      # override only for trying mutations quickly
     progs = [(name, p, False) for name, p in directed()]
     feats = {}
     for i in range(n):
@@ -431,7 +431,7 @@ def fragment(ctx):
 
 def wide(ctx):
     r = ctx.rng("wide")
-    nb = int(os.environ.get("VERIF_C01_NW", 0)) or (3 if ctx.quick else 80)
+    nb = int(os.environ.get("VERIF_C01_NW", 0)) or (3 if ctx.quick else 30)
     gper = 36
     batches = [W.generate_batch(r, gper) for _ in range(nb)]
     feats = {}
